@@ -224,9 +224,24 @@ def generate(rng, n, tier, cast_p=0.0, hostile=False):
             for other in rules:
                 if rng.random() < 0.5:
                     other["parts"] = base_rule["parts"]
+        if base_rule and base_rule["cast"] and len(base) >= 2 and rng.random() < 0.35:
+            # an earlier (shorter-path) cast rule that selects the CONTAINERS the base rule later casts inside:
+            # the ancestors of the cast nodes, by plain prefix or through a bare map / list part
+            j = rng.randrange(1, len(base))
+            anc = list(base[:j])
+            if rng.random() < 0.5 and anc:
+                bare = lambda k: (k, {"key": None, "index": None, "value": None, "condition": None, "list_condition": None,  # noqa: E731
+                                      "map_condition": None, "label": None})
+                anc = anc[:-1] + [bare(rng.choice(["map", "list", "molv"]))]
+            extra = rc.gen_rule(g, cast_p=1.0, hostile_p=0.0)
+            extra["parts"] = anc
+            rules.append(extra)
         if hostile and rng.random() < 0.5:
             doc = g.doc()
         perm = list(range(k))
         rng.shuffle(perm)
+        if len(perm) != len(rules):
+            perm = list(range(len(rules)))
+            rng.shuffle(perm)
         cases.append(make_case(rules, doc, perm, check_perm=(cast_p == 0.0)))
     return cases
